@@ -88,25 +88,75 @@
       throughout (invariant [lease_inv]); needs election_timeout <= randomized
       timeout (what Config::validate + reset guarantee; hypothesis here).
 
+   8. THE CLUSTER-LEVEL WINDOW (M/RaftProofsC16Window.v; pinned at the end of this file).
+      Setting: a leader L and a list Fs of followers of L's term that together with L
+      are a quorum of L's configuration (has_quorum over incoming/outgoing), all with
+      check_quorum on, run the lock-step round [star_round] of M/RaftProofsC10Star.v
+      (L's queued messages are delivered to their addressees in Fs, every follower's
+      replies go back to L, everybody ticks).  One WINDOW ROUND [window_round adv] first
+      delivers an arbitrary list [adv] of (target id, message) pairs to L / members of
+      Fs, then runs star_round.  Every adversarial message must satisfy [adv_ok]:
+      sender outside {L} + Fs; not a local message (MsgHup, MsgBeat, MsgCheckQuorum,
+      MsgUnreachable, MsgSnapStatus: RawNode::step refuses them from the network) and
+      not MsgTransferLeader / MsgTimeoutNow (the transfer exception of the property); and
+        - a MsgRequestPreVote of ANY term and context, or
+        - ANY other message of a stale non-zero term < t, or
+        - any message of term <= t (0 included) except MsgAppend / MsgHeartbeat /
+          MsgSnapshot / MsgReadIndexResp (at term t only the leader of t, L, sends those).
+      C16_window_rounds_safe: from a start state [window_start] (stated on the model's
+      fields; timing hypothesis: L's heartbeat_timeout < L's election_timeout, and
+      < election_timeout and < randomized_election_timeout of every member of Fs; L has
+      heard from every member since its last check, or its next heartbeat precedes its
+      next check-quorum boundary), for ANY number of rounds and ANY adversarial lists
+      (arbitrary length, one per round), if no panic occurs: L is still Leader of term t
+      with itself as leader, every member of Fs is still Follower of term t with leader
+      L, the same id and the SAME VOTE, and inside its lease (election_elapsed <
+      election_timeout).  Proof: C16_window_round_inv (one round preserves the invariant
+      WInv) + induction.  Inside: the leader frame LF (every leader step under an allowed
+      message keeps role/term/leader, the transfer target, heartbeat counter,
+      configuration, never un-tracks a peer or clears a recent_active flag, queues for
+      members of Fs only leader messages stamped (L, t)); a heartbeat/append response of a
+      member sets its recent_active flag; every heartbeat of L is answered in the same
+      round; the leader's tick via C10's leader_heartbeats / checkquorum_stepdown /
+      bcast_heartbeat_eq: at a check-quorum boundary all of Fs are flagged, so with
+      has_quorum(L :: Fs) the active set is a quorum (active_quorum_spec/has_quorum_spec).
+      What the adversary may NOT send and why: a message of a term > t other than a
+      pre-vote request would need an outsider with a real term > t; a node that runs
+      pre-vote raises its term only after a quorum of pre-vote grants
+      (C16_step_term_cases, C16_precandidate_term_cases, C16_quiet_run_term), every
+      quorum contains a member of {L} + Fs, and C16_window_members_deny shows that in
+      every state of the window L and every member of Fs answer a higher-term
+      non-transfer MsgRequestVote / MsgRequestPreVote with NOTHING (lease): no grant ever
+      leaves the majority.  Leader-only messages of term t from somebody else contradict
+      election safety (C02).  Pre-vote is not needed ON the majority for the theorem (its
+      hypotheses do not mention r_pre_vote of L or Fs); it is what justifies [adv_ok] for
+      the outsiders.
+      Non-vacuity: C16_window_example (3 voters, leader 1, follower 2, outsider 3 sending
+      pre-vote requests of terms 3 and 7, a stale and a current-term vote request every
+      round for 30 rounds = three election timeouts: hypotheses hold, the run computes).
+
    NOT PROVED (listed honestly).
-   * The cluster-level clause ("while a leader and a majority exchange heartbeats on
-     schedule no behaviour of the remaining nodes makes that leader step down or any
-     member of the majority change its term") as ONE multi-node theorem.  Missing:
-     (i) a network/cluster model tying the nodes together; (ii) the invariant "no
-     adoptable term above the leader's T is in flight towards the majority", which
-     needs quorum intersection: a PreCandidate can only win (case 2b) with grants from
-     a quorum, which intersects the majority, whose members are in the lease and drop
-     the request (clause 0/4) — the per-node halves of that argument are proved here,
-     the composition is not; (iii) "heartbeats on schedule => check_quorum_active at
-     each boundary" is not proved (it needs the followers' responses to arrive, i.e.
-     the cluster model); leader_window takes it as a hypothesis on the states met.
-     The follower half (election_elapsed < election_timeout throughout) IS proved:
-     clause 7.  Note also what the per-node theorems show the
-     clause must except: a node outside the lease that is at a higher REAL term
-     (e.g. a restarted node that campaigned without pre-vote, or a MsgAppendResponse
-     from a node with a higher term) does make the leader adopt that term
-     (step_term_cases, third disjunct) — pre-vote only prevents such terms from
-     arising on nodes that run pre-vote.
+   * The CLOSING STEP of the window: that what the outsiders emit always satisfies
+     [adv_ok] - i.e. a cluster theorem "a node outside the majority whose inputs are the
+     majority's outputs and other outsiders' [adv_ok] messages, starting with term <= t
+     and running pre-vote, only ever emits [adv_ok] messages" (including after crash +
+     restart, which restores term/vote from the persisted HardState).  The per-node
+     ingredients are proved (term: C16_quiet_run_term / C16_step_term_cases; the majority
+     never grants: C16_window_members_deny; election safety: C02) but an output
+     characterisation of step for all roles and their composition over a network model
+     are missing.  So clause 8 is a theorem about the majority AGAINST a specified
+     adversary class, not yet about the closed cluster.
+   * Schedules other than the lock-step one: message loss, delay or reordering INSIDE the
+     majority (star_round delivers every message of a round in that round), adversarial
+     deliveries between the three phases of a round (here: before each round), followers
+     ticking at different rates.  Panics are excluded by hypothesis (run = Ok).
+   * Leadership transfer inside the window (excluded: r_lead_transferee = None at the
+     start, no MsgTransferLeader / MsgTimeoutNow from outside).
+   * Note what the per-node theorems show the property must except: a node at a higher
+     REAL term (e.g. one that campaigned without pre-vote, or a MsgAppendResponse from a
+     node with a higher term) does make the leader adopt that term (step_term_cases,
+     third disjunct) - pre-vote only prevents such terms from arising on nodes that run
+     pre-vote.
    * That [quiet] inputs are what a partitioned node actually receives (needs the
      cluster model).  The hypotheses of quiet_run / leader_window are stated on the
      states met along the run, not derived from a schedule. *)
@@ -763,3 +813,163 @@ Example C16_on_schedule_example :
   exists r', run xs_follower xs_schedule = Ok r' /\ r_election_elapsed r' = 9 /\ r_term r' = 2.
 Proof. exact xs_on_schedule. Qed.
 Print Assumptions C16_on_schedule_example.
+
+
+(* ================================================================== *)
+(* 8. the cluster-level window (M/RaftProofsC16Window.v) *)
+From RV Require Import M.RaftProofsC10 M.RaftProofsC10Pair M.RaftProofsC10Star M.RaftProofsC16
+  M.RaftProofsC16Window.
+
+(* the lock-step round of C10 (restated; the definition is M/RaftProofsC10Star.v's) *)
+Theorem C16_def_star_round : forall L Fs,
+  star_round L Fs =
+  (Fs1 <- mapM (fun F => steps F (to_peer (r_id F) (r_msgs L))) Fs ;;
+   L1 <- steps (L <| r_msgs := [] |>) (concat (map (replies (r_id L)) Fs1)) ;;
+   L2 <- tick L1 ;;
+   Fs2 <- mapM (fun F1 => x <- tick (F1 <| r_msgs := [] |>) ;; Ok (fst x)) Fs1 ;;
+   Ok (fst L2, Fs2)).
+Proof. exact def_star_round. Qed.
+Print Assumptions C16_def_star_round.
+
+Theorem C16_def_act : forall L id,
+  act L id <-> exists p, get_pr L id = Some p /\ recent_active p = true.
+Proof. exact def_act. Qed.
+Print Assumptions C16_def_act.
+
+Theorem C16_def_netmsg : forall ty,
+  netmsg ty <->
+  ty <> MsgHup /\ ty <> MsgBeat /\ ty <> MsgCheckQuorum /\ ty <> MsgUnreachable /\
+  ty <> MsgSnapStatus /\ ty <> MsgTransferLeader /\ ty <> MsgTimeoutNow.
+Proof. exact def_netmsg. Qed.
+Print Assumptions C16_def_netmsg.
+
+Theorem C16_def_from_leader : forall m,
+  from_leader m = (m_type m =? MsgAppend) || (m_type m =? MsgHeartbeat) || (m_type m =? MsgSnapshot).
+Proof. exact def_from_leader. Qed.
+Print Assumptions C16_def_from_leader.
+
+(* the adversary: what a node outside {l} + ids may deliver to the majority of term t *)
+Theorem C16_def_adv_ok : forall ids l t m,
+  adv_ok ids l t m <->
+  ~ In (m_from m) (l :: ids) /\ netmsg (m_type m) /\
+  (m_type m = MsgRequestPreVote \/
+   (m_term m <> 0 /\ m_term m < t) \/
+   (m_term m <= t /\ from_leader m = false /\ m_type m <> MsgReadIndexResp)).
+Proof. exact def_adv_ok. Qed.
+Print Assumptions C16_def_adv_ok.
+
+Theorem C16_def_deliver : forall st tm,
+  deliver st tm =
+  if fst tm =? r_id (fst st) then x <- step (fst st) (snd tm) ;; Ok (fst x, snd st)
+  else Fs' <- mapM (fun F => if r_id F =? fst tm then x <- step F (snd tm) ;; Ok (fst x)
+                             else Ok F) (snd st) ;;
+       Ok (fst st, Fs').
+Proof. exact def_deliver. Qed.
+Print Assumptions C16_def_deliver.
+
+Theorem C16_def_deliver_all : forall st adv,
+  deliver_all st adv = match adv with
+                       | [] => Ok st
+                       | tm :: rest => st' <- deliver st tm ;; deliver_all st' rest
+                       end.
+Proof. exact def_deliver_all. Qed.
+Print Assumptions C16_def_deliver_all.
+
+Theorem C16_def_window_round : forall adv L Fs,
+  window_round adv L Fs = (st <- deliver_all (L, Fs) adv ;; star_round (fst st) (snd st)).
+Proof. exact def_window_round. Qed.
+Print Assumptions C16_def_window_round.
+
+Theorem C16_def_window_rounds : forall advs L Fs,
+  window_rounds advs L Fs =
+  match advs with
+  | [] => Ok (L, Fs)
+  | adv :: rest => x <- window_round adv L Fs ;; window_rounds rest (fst x) (snd x)
+  end.
+Proof. exact def_window_rounds. Qed.
+Print Assumptions C16_def_window_rounds.
+
+Theorem C16_def_adv_schedule : forall L Fs advs,
+  adv_schedule L Fs advs <->
+  Forall (Forall (fun tm => adv_ok (map r_id Fs) (r_id L) (r_term L) (snd tm))) advs.
+Proof. exact def_adv_schedule. Qed.
+Print Assumptions C16_def_adv_schedule.
+
+(* the start of a window, on the model's fields *)
+Theorem C16_def_window_start : forall L Fs,
+  window_start L Fs <->
+  r_term L <> 0 /\ r_id L <> INVALID_ID /\ ~ In (r_id L) (map r_id Fs) /\
+  r_heartbeat_timeout L < r_election_timeout L /\
+  Quorum.has_quorum (incoming (t_conf (r_prs L))) (outgoing (t_conf (r_prs L)))
+                    (r_id L :: map r_id Fs) = true /\
+  r_state L = Leader /\ r_leader_id L = r_id L /\ r_check_quorum L = true /\
+  r_lead_transferee L = None /\
+  r_heartbeat_elapsed L < r_heartbeat_timeout L /\ r_election_elapsed L < r_election_timeout L /\
+  (forall id, In id (r_id L :: map r_id Fs) -> get_pr L id <> None) /\
+  r_msgs L = [] /\
+  ((forall id, In id (map r_id Fs) -> act L id) \/
+   r_heartbeat_timeout L + r_election_elapsed L < r_election_timeout L + r_heartbeat_elapsed L) /\
+  Forall (fun F =>
+    r_state F = Follower /\ r_term F = r_term L /\ r_leader_id F = r_id L /\
+    r_check_quorum F = true /\
+    r_heartbeat_timeout L < r_election_timeout F /\
+    r_heartbeat_timeout L < r_randomized_election_timeout F /\
+    r_msgs F = [] /\ r_election_elapsed F <= r_heartbeat_elapsed L) Fs.
+Proof. exact def_window_start. Qed.
+Print Assumptions C16_def_window_start.
+
+(* THE WINDOW THEOREM: any number of rounds, any adversarial lists *)
+Theorem C16_window_rounds_safe :
+  forall L Fs advs L' Fs',
+    window_start L Fs -> adv_schedule L Fs advs ->
+    window_rounds advs L Fs = Ok (L', Fs') ->
+    r_state L' = Leader /\ r_term L' = r_term L /\ r_leader_id L' = r_id L /\ r_id L' = r_id L /\
+    Forall2 (fun F F' =>
+      r_id F' = r_id F /\ r_vote F' = r_vote F /\ r_state F' = Follower /\
+      r_term F' = r_term L /\ r_leader_id F' = r_id L /\ r_check_quorum F' = true /\
+      r_election_elapsed F' < r_election_timeout F') Fs Fs'.
+Proof. exact window_rounds_safe. Qed.
+Print Assumptions C16_window_rounds_safe.
+
+(* one round preserves the window invariant ([window_inv L0 Fs0] = WInv instantiated
+   with the ids, votes, term, timeouts and configuration of the start state; it holds at
+   the start: window_start_WInv) *)
+Theorem C16_window_start_inv :
+  forall L Fs, window_start L Fs -> window_inv L Fs L Fs.
+Proof. exact window_start_WInv. Qed.
+Print Assumptions C16_window_start_inv.
+
+Theorem C16_window_round_inv :
+  forall L0 Fs0 adv L Fs L' Fs',
+    window_start L0 Fs0 -> window_inv L0 Fs0 L Fs ->
+    Forall (fun tm => adv_ok (map r_id Fs0) (r_id L0) (r_term L0) (snd tm)) adv ->
+    window_round adv L Fs = Ok (L', Fs') -> window_inv L0 Fs0 L' Fs'.
+Proof. exact window_round_inv. Qed.
+Print Assumptions C16_window_round_inv.
+
+(* in every state of the window no member of the majority answers a higher-term
+   non-transfer (pre-)vote request: the step returns the state unchanged, nothing queued *)
+Theorem C16_window_members_deny :
+  forall L0 Fs0 L Fs m,
+    window_start L0 Fs0 -> window_inv L0 Fs0 L Fs ->
+    (m_type m = MsgRequestVote \/ m_type m = MsgRequestPreVote) -> r_term L0 < m_term m ->
+    list_eqb (m_context m) CAMPAIGN_TRANSFER = false ->
+    step L m = Ok (L, E_OK) /\ Forall (fun F => step F m = Ok (F, E_OK)) Fs.
+Proof. exact window_members_deny. Qed.
+Print Assumptions C16_window_members_deny.
+
+(* 8: three voters, leader 1 and follower 2 against outsider 3 for thirty rounds (three
+   election timeouts of the leader): the start and schedule hypotheses hold, the run
+   computes and shows leader and follower where the theorem says *)
+Example C16_window_example_start : window_start xs_leader [xw_F2].
+Proof. exact xw_start. Qed.
+
+Example C16_window_example_schedule : forall n, adv_schedule xs_leader [xw_F2] (repeat xw_adv n).
+Proof. exact xw_schedule. Qed.
+
+Example C16_window_example :
+  exists L' F',
+    window_rounds (repeat xw_adv 30) xs_leader [xw_F2] = Ok (L', [F']) /\
+    r_state L' = Leader /\ r_term L' = 2 /\ r_election_elapsed L' = 0 /\
+    r_state F' = Follower /\ r_term F' = 2 /\ r_vote F' = 1 /\ r_leader_id F' = 1.
+Proof. exact xw_run. Qed.
